@@ -300,7 +300,12 @@ pub fn valid_spec(rng: &mut Rng, ctr: &mut u64) -> ReqSpec {
     let srv = if proto == P::Ietf && rng.chance(1, 3) { SrvMode::Correct } else { SrvMode::Absent };
     // sizes: uniform over the legal range, one in six at its edges
     let size = if rng.chance(1, 6) { *rng.pick(&[1024u16, 1028, 1496, 1500, 1500]) } else { 1024 + 4 * rng.below(120) as u16 };
-    ReqSpec::Valid { proto, size, nonce_seed: *ctr, srv, vers: vec![r::VER_DRAFT13] }
+    let base = ReqSpec::Valid { proto, size, nonce_seed: *ctr, srv, vers: vec![r::VER_DRAFT13] };
+    if rng.chance(1, 10) {
+        // padding is not the server's business: a request whose padding is not zero is as valid
+        return ReqSpec::Mutant { base: Box::new(base), muts: vec![Mutation::Scribble { pos: size as u32 - 64, len: 64, seed: rng.next_u64() }] };
+    }
+    base
 }
 
 /// One datagram of an "interesting" kind; `ctr` keeps nonces unique.
